@@ -589,6 +589,26 @@ def check(case, acc, tmp):
                 acc.violation(sig, detail, dict(case, writers=[w], readers=[rd]))
             if not problems:
                 acc.count('reader:' + rd)
+            if not problems and rd == 'lines' and not exported and 0 not in r.shape:
+                # the imported table is a table like any other: exported again it must decode to the same ids
+                # and values
+                acc.evals += 1
+                c2 = dict(case, writers=[w], readers=[rd])
+                try:
+                    s2 = r.to_tsv(**({'observation_column_name': case['obs_col']} if case.get('obs_col') else {}))
+                    d_sids2, _, rows2 = decode(s2, len(sids), None, case.get('obs_col'))
+                    v2 = np.array([[float(x) for x in rw[1]] for rw in rows2], float).reshape(len(rows2), len(sids))
+                    b2 = tuple(tuple(int(v) for v in row) for row in v2.view(np.uint64)) if v2.size else \
+                        tuple(() for _ in rows2)
+                except Exception as e:
+                    acc.violation('second-generation:raised:' + type(e).__name__, 'the imported table cannot be exported '
+                                  'again: %s: %s' % (type(e).__name__, str(e)[:200]), c2)
+                    continue
+                if tuple(rw[0] for rw in rows2) != oids or d_sids2 != sids or b2 != bits:
+                    acc.violation('second-generation:text', 'export of the imported table decodes to %r / %r / %r, '
+                                  'expected %r / %r' % (tuple(rw[0] for rw in rows2), d_sids2, v2.tolist(), oids, sids), c2)
+                else:
+                    acc.count('clause:second-generation')
         rm(path, gz)
 
 
@@ -813,7 +833,7 @@ def run(run):
         'writer_x_reader': 'every reader is run on every *distinct* text of a table (texts of two writers '
                            'that are character-identical are read once; counters text-identical:*)',
         'subprocess_cases': c.get('prod:SUB', 0), 'cases': len(cs)}
-    need = ['clause:history-roundtrip', 'clause:history-roundtrip-metadata', 'clause:text-ids', 'clause:text-values', 'clause:text-metadata', 'clause:read-ids',
+    need = ['clause:history-roundtrip', 'clause:history-roundtrip-metadata', 'clause:second-generation', 'clause:text-ids', 'clause:text-values', 'clause:text-metadata', 'clause:read-ids',
             'clause:read-values', 'clause:read-metadata'] + \
         ['reader:' + r for r in READERS] + ['writer:' + w for w in WRITERS] + \
         ['prod:A', 'prod:CV', 'prod:B-ids', 'prod:B-md', 'prod:B-col', 'prod:V'] + ['style:' + s for s in ok] + \
